@@ -5,6 +5,7 @@ import (
 	"go/ast"
 	"go/token"
 	"go/types"
+	"os"
 	"sort"
 	"strings"
 
@@ -26,9 +27,9 @@ func init() {
 	register(&Property{
 		ID:        "C01",
 		Title:     "Felix's computed dataplane state depends only on current datastore state",
-		Technique: "static analysis: sibling cross-check of pending-update/pending-delete families and of the tier update/delete branches (SSA dominance + post-dominance, cut-set guards), premise/cancel/re-read cross-check of the batched sets of the calc-graph nodes, AST twin-block symmetry (IPv4/IPv6 copies compared modulo the twin substitution, type-resolved), field read-set ownership, concurrency-construct ownership, interface-conversion ownership",
+		Technique: "static analysis: sibling cross-check of pending-update/pending-delete families and of the tier update/delete branches (SSA dominance + post-dominance, cut-set guards), premise/cancel/re-read cross-check of the batched sets of the calc-graph nodes, AST twin-block symmetry (IPv4/IPv6 copies compared modulo the twin substitution, type-resolved), field read-set ownership and coverage (equality functions), value-flow slice from the per-endpoint callback argument, provenance of sorted-tree items, concurrency-construct ownership, interface-conversion ownership",
 		DesignRef: "DESIGN.md §3 C01",
-		Explanation: "Decides six structural necessary conditions of history-independence. (cancel) For every EventSequencer message family, derived from the proto types XUpdate/XRemove it emits and the " +
+		Explanation: "Decides structural necessary conditions of history-independence. (cancel) For every EventSequencer message family, derived from the proto types XUpdate/XRemove it emits and the " +
 			"pending collections ranged over at those emissions: every store into the pending-update map is accompanied on every path by a Discard of the same key from the pending-delete set, and every Add to the " +
 			"pending-delete set by a delete of the same key from the pending-update map, so add-remove-add (or remove-add-remove) between two flushes collapses to the last event. " +
 			"(flushclears) Every XUpdate emission records its key in the same 'sent' set from which the XRemove emission discards (else a later removal is never sent), and every flush empties the pending " +
@@ -38,8 +39,12 @@ func init() {
 			"(sync) go statements and channel operations occur only in the AsyncCalcGraph/decoupler shell, so the graph proper is single-threaded and its output cannot depend on goroutine schedule. " +
 			"(filter) in felix/daemon an *AsyncCalcGraph is converted to api.SyncerCallbacks only as the sink argument of calc.NewValidationFilter, and the filter's result is what is handed on. " +
 			"(pendinglive) For every batched set of a calc-graph node other than EventSequencer (a lib/set-typed struct field with Add sites and a loop that empties it: PolicyResolver.pendingPolicyUpdates/dirtyEndpoints, InheritIndex.dirtyItemIDs, ActiveRulesCalculator.missingProfiles, RouteTrie.dirtyCIDRs) and every sibling map/set/multidict M of the same struct into which the queued key is inserted on a path through the Add (in the adding function or its caller): the flush loop (or a callee handed the iteration key) re-reads M at that key, or every function that removes a key from M also Discards it from the batched set (before/after on every path, or under guards that only establish that M no longer contains the key, directly or through a helper that discards its parameter unconditionally). So start-then-stop between two flushes cannot leave a queued action whose premise no longer holds. " +
-			"(twin) Sibling statements / case clauses of felix/calc that are copies of each other up to the IPv4->IPv6 twin relation on identifiers (V4x->V6x, v4->v6, IPv4->IPv6, unmarked x->xV6 inserted anywhere, literal 4->6; block-local names alpha-renamed) use no identifier un-substituted that has a twin resolvable the same way (member of the receiver types, package scope, lexical scope): neither address family's block reads the other family's field, method, variable or type.",
-		NotDecided: "pendinglive: premises recorded in containers other than builtin map / lib/set / felix/multidict fields of the same struct (e.g. the ip.CIDRTrie behind RouteTrie.dirtyCIDRs), batches kept in plain maps, and a flush that re-derives the premise from a mirror index instead of the container written at the Add site. twin: IPv4/IPv6 code whose two halves are not structurally identical copies (one side refactored, extra statement) is not paired (the instance floor then breaks the run); unsubstituted integer/string literals. That each calc-graph node (ActiveRulesCalculator, PolicyResolver, RuleScanner, L3RouteResolver, VXLANResolver, label indexes) computes a function of its current inputs only; equality of the emitted state with a fresh start over all histories.",
+			"(twin) Sibling statements / case clauses of felix/calc that are copies of each other up to the IPv4->IPv6 twin relation on identifiers (V4x->V6x, v4->v6, IPv4->IPv6, unmarked x->xV6 inserted anywhere, literal 4->6; block-local names alpha-renamed) use no identifier un-substituted that has a twin resolvable the same way (member of the receiver types, package scope, lexical scope): neither address family's block reads the other family's field, method, variable or type. " +
+			"(twin, missing member) A function of felix/calc that uses both members of one IPv4/IPv6 field pair of a struct (so it handles both families of that struct) uses both members of every twin pair of that struct it touches: a dropped IPv6 (or IPv4) sibling is reported as <fn>/<field>/missing-twin. " +
+			"(eqfields) Every function of felix/calc of the shape func(a, b T) bool over a struct T that is called in felix/calc (vtepEqual, l3rrNodeInfo.Equal, HostInfo.equals, RouteInfo.Equals, policyMetadata.Equals: the tests that suppress re-emission when nothing changed) reads every field of T (exported fields for felix/proto messages) from both operands, or compares the operands whole (==, reflect.DeepEqual, proto.Equal). " +
+			"(treekey, shared with C03) Items handed to Delete on the sorted btrees of PolicySorter are rebuilt from what is stored (the tier's own Policies[key] / the TierInfo's fields before reassignment) and items handed to ReplaceOrInsert are what is stored afterwards, so no stale tree entry can survive an update that changes the sort key. " +
+			"(tierreset) locates the per-endpoint tier list through the value flow into the tiers argument of OnEndpointTierUpdate, following felix/calc helpers. An anchor lost by one family breaks the run but no longer silences the other families.",
+		NotDecided: "pendinglive: premises recorded in containers other than builtin map / lib/set / felix/multidict fields of the same struct (e.g. the ip.CIDRTrie behind RouteTrie.dirtyCIDRs), batches kept in plain maps, and a flush that re-derives the premise from a mirror index instead of the container written at the Add site. twin: IPv4/IPv6 code whose two halves are not structurally identical copies (one side refactored, extra statement) is not paired (the instance floor then breaks the run); unsubstituted integer/string literals; a function split into one helper per address family is not seen as dual-stack by the missing-member clause. eqfields: equality decided by something other than a func(a, b T) bool over a struct (inline comparisons, interface-typed operands), and whether an uncompared field is derived from compared ones. That each calc-graph node (ActiveRulesCalculator, PolicyResolver, RuleScanner, L3RouteResolver, VXLANResolver, label indexes) computes a function of its current inputs only; equality of the emitted state with a fresh start over all histories.",
 		Assumptions: []string{
 			"go/types + go/ssa (x/tools v0.50.0) model of the current source, CGO_ENABLED=0 build",
 			"set.Set / multidict / builtin map have their usual semantics (Add/Discard/Clear/DiscardKey/delete)",
@@ -91,6 +96,19 @@ func init() {
 				Old: "\t\treturn localNodeInfo.V6CIDR != ip.V6CIDR{} && ", New: "\t\treturn localNodeInfo.V4CIDR != ip.V4CIDR{} && ", Expect: "C01.twin/L3RouteResolver.nodeInOurSubnet/"},
 			{Name: "VXLAN resolver records the node's IPv4 address as its IPv6 address", File: "felix/calc/vxlan_resolver.go",
 				Old: "\t\tc.nodeNameToIPv6Addr[nodeName] = newIPv6\n", New: "\t\tc.nodeNameToIPv6Addr[nodeName] = newIPv4\n", Expect: "C01.twin/VXLANResolver.onNodeIPUpdate/newIPv4"},
+			{Name: "seed C01-4: VTEP duplicate suppression no longer compares the parent device IPv6 address (missing twin)", File: "felix/calc/vxlan_resolver.go",
+				Old: "\tcase vtep1.ParentDeviceIpv6 != vtep2.ParentDeviceIpv6:\n\t\treturn false\n", New: "", Expect: "C01.twin/VXLANResolver.vtepEqual/ParentDeviceIp/missing-twin"},
+			{Name: "seed C01-4 again: the equality function no longer covers every field of the message", File: "felix/calc/vxlan_resolver.go",
+				Old: "\tcase vtep1.ParentDeviceIpv6 != vtep2.ParentDeviceIpv6:\n\t\treturn false\n", New: "", Expect: "C01.eqfields/VXLANResolver.vtepEqual/VXLANTunnelEndpointUpdate.ParentDeviceIpv6"},
+			{Name: "VTEP comparison reads the IPv6 MAC of the first operand twice", File: "felix/calc/vxlan_resolver.go",
+				Old: "\tcase vtep1.MacV6 != vtep2.MacV6:\n", New: "\tcase vtep1.MacV6 != vtep1.MacV6:\n", Expect: "C01.eqfields/VXLANResolver.vtepEqual/VXLANTunnelEndpointUpdate.MacV6"},
+			{Name: "node info comparison ignores the IPv6 wireguard address", File: "felix/calc/l3_route_resolver.go",
+				Old: "\t\ti.WireguardAddr == b.WireguardAddr &&\n\t\ti.WireguardV6Addr == b.WireguardV6Addr {\n", New: "\t\ti.WireguardAddr == b.WireguardAddr {\n", Expect: "C01.twin/l3rrNodeInfo.Equal/WireguardAddr/missing-twin"},
+			{Name: "host metadata comparison ignores the AS number", File: "felix/calc/event_sequencer.go",
+				Old: "\t\th.asnumber == a.asnumber &&\n", New: "", Expect: "C01.eqfields/HostInfo.equals/HostInfo.asnumber"},
+			{Name: "seed C01-3: policy moved to another tier is deleted from the old tier's tree with the new metadata", File: "felix/calc/policy_sorter.go",
+				Old: "\t\toldPolicy := oldTierInfo.Policies[key]\n\t\toldTiKey := tierInfoKey{\n\t\t\tName:  oldTierInfo.Name,\n\t\t\tOrder: oldTierInfo.Order,\n\t\t\tValid: oldTierInfo.Valid,\n\t\t}\n\t\toldTierInfo.SortedPolicies.Delete(PolKV{Key: key, Value: &oldPolicy})\n",
+				New: "\t\toldTiKey := tierInfoKey{\n\t\t\tName:  oldTierInfo.Name,\n\t\t\tOrder: oldTierInfo.Order,\n\t\t\tValid: oldTierInfo.Valid,\n\t\t}\n\t\toldTierInfo.SortedPolicies.Delete(PolKV{Key: key, Value: newPolicy})\n", Expect: "C01.treekey/delete/PolKV@PolicySorter.UpdatePolicy"},
 			{Name: "syncer feeds the calc graph without the validation filter", File: "felix/daemon/daemon.go",
 				Old: "\tgo syncerToValidator.SendToSinkForever(validator)\n", New: "\t_ = validator\n\tgo syncerToValidator.SendToSinkForever(asyncCalcGraph)\n", Expect: "C01.filter/"},
 		},
@@ -131,21 +149,49 @@ func runC01(c *Ctx) {
 
 	c.Rule("C01.pendinglive", "E-PAIR/E-GUARD", "for every batched set S of a calc-graph node (set-typed field with Add sites and a loop that empties it) and every sibling container M that receives the key where it is queued: the flush loop re-reads M at the iteration key, or every removal of a key from M is accompanied by S.Discard(same key) (possibly under a guard that M no longer contains it)", 9)
 
-	c.Rule("C01.twin", "E-PAIR", "IPv4/IPv6 twin blocks (sibling statements or case clauses of identical shape whose identifiers differ only by the V4->V6 twin relation) substitute every identifier that has a twin in scope: neither half uses the other family's field, method, variable or type", 36)
+	c.Rule("C01.twin", "E-PAIR", "IPv4/IPv6 twin blocks (sibling statements or case clauses of identical shape whose identifiers differ only by the V4->V6 twin relation) substitute every identifier that has a twin in scope: neither half uses the other family's field, method, variable or type; and a function that uses both members of one IPv4/IPv6 field pair of a struct uses both members of every such pair of that struct it touches (a dropped twin is a violation, not a smaller count)", 76)
 
-	fams := c01Families(c, m)
-	c01TierReset(c, p)
-	c01Cancel(c, m, fams, "C01.cancel")
+	c.Rule("C01.eqfields", "E-FIELDS", "every function of felix/calc of the shape func(a, b T) bool over a struct T (used to suppress re-emission when nothing changed) reads every field of T (exported fields of felix/proto messages) from both operands, or compares them whole (==, reflect.DeepEqual, proto.Equal)", 5)
+	c.Rule("C01.inheritreg", "E-GUARD/E-ORDER/E-FLOW", "label inheritance registry discipline (c07ParentReg): a parent entry is deleted only when it has no children and no labels; an item is unregistered from an old parent only if that parent is not among its new parents; every parent pointer an item holds is the registered object", 4)
+
+	// Each family runs on its own: an anchor lost by one of them breaks the run
+	// (exit 2) but the families that do not depend on that anchor still report.
+	c01Isolated(c, func() { c01TierReset(c, p) })
+	c01Isolated(c, func() { c01Cancel(c, m, c01Families(c, m), "C01.cancel") })
 	// label-inheritance plumbing (shared checker, also armed under C03 and C07): an endpoint that keeps
 	// pointing at an orphaned parent never inherits labels that arrive later — output depends on history.
-	c.Rule("C01.inheritreg", "E-GUARD/E-ORDER/E-FLOW", "label inheritance registry discipline (c07ParentReg): a parent entry is deleted only when it has no children and no labels; an item is unregistered from an old parent only if that parent is not among its new parents; every parent pointer an item holds is the registered object", 4)
-	c07ParentReg(c, p, "C01.inheritreg")
-	c01FlushClears(c, m)
-	c01NilNoType(c, p)
-	c01Sync(c, p)
-	c01Filter(c)
-	c01PendingLive(c, p)
-	c01Twin(c, p)
+	c01Isolated(c, func() { c07ParentReg(c, p, "C01.inheritreg") })
+	c01Isolated(c, func() { c01FlushClears(c, m) })
+	c01Isolated(c, func() { c01NilNoType(c, p) })
+	c01Isolated(c, func() { c01Sync(c, p) })
+	c01Isolated(c, func() { c01Filter(c) })
+	c01Isolated(c, func() { c01PendingLive(c, p) })
+	c01Isolated(c, func() { c01Twin(c, p) })
+	c01Isolated(c, func() { c01EqFields(c, p) })
+	// sorted-tree bookkeeping of PolicySorter (implemented in engine_C03key.go, also armed under C03): a
+	// Delete that misses leaves a stale entry behind, so what is emitted depends on the order history.
+	c.Alias("C03.treekey", "C01.treekey", func() {
+		c.Rule("C03.treekey", "E-PAIR/E-FLOW", c03TreeKeyText, 11)
+		c01Isolated(c, func() { c03TreeKey(c, p) })
+	})
+}
+
+// c01Isolated runs one rule family.  c.Lost inside it is recorded as a broken
+// check (the run still exits 2) without aborting the sibling families.
+func c01Isolated(c *Ctx, f func()) {
+	defer func() {
+		if r := recover(); r != nil {
+			if al, ok := r.(anchorLost); ok {
+				c.broken = append(c.broken, al.msg)
+				return
+			}
+			if os.Getenv("CALINT_DEBUG") != "" {
+				panic(r)
+			}
+			c.broken = append(c.broken, fmt.Sprintf("ENGINE-PANIC: %v", r))
+		}
+	}()
+	f()
 }
 
 // c01Families pairs pending-update maps with pending-delete sets through the
@@ -634,28 +680,21 @@ func c01TierReset(c *Ctx, p *Prog) {
 		c.Lost("PolicySorter.OnUpdate: no store to a TierInfo field under `update.Value != nil`")
 	}
 	// are invalid tiers skipped where the per-endpoint list is built?
+	// (the append sites are found through the value flow into the tiers argument of
+	// the OnEndpointTierUpdate callback, wherever a refactor puts the loop)
 	nApp, nGuarded := 0, 0
-	for _, f := range withClosures(p.methodsOf(calcPkg, "PolicyResolver")) {
-		if len(callsIn(f, false, func(fn *types.Func) bool { return fn.Name() == "OnEndpointTierUpdate" })) == 0 {
-			continue
+	flow := c03BuildTierFlow(p)
+	if flow == nil {
+		c.Lost("no OnEndpointTierUpdate call with a []TierInfo argument in felix/calc")
+	}
+	for _, a := range flow.AppendsOf("TierInfo") {
+		nApp++
+		if guardedCut(a.Call, func(cond ssa.Value, pol bool) bool { return pol && fieldVar(cond) == validF }) {
+			nGuarded++
 		}
-		allInstrs(f, false, func(_ *ssa.Function, in ssa.Instruction) {
-			cc, ok := isBuiltinCall(in, "append")
-			if !ok {
-				return
-			}
-			sl, _ := cc.Args[0].Type().Underlying().(*types.Slice)
-			if sl == nil || qualTypeName(sl.Elem()) != "felix/calc.TierInfo" {
-				return
-			}
-			nApp++
-			if guardedCut(in, func(cond ssa.Value, pol bool) bool { return pol && fieldVar(cond) == validF }) {
-				nGuarded++
-			}
-		})
 	}
 	if nApp == 0 {
-		c.Lost("no per-endpoint append of TierInfo next to OnEndpointTierUpdate in PolicyResolver")
+		c.Lost("no append of a TierInfo flows into the tiers argument of OnEndpointTierUpdate")
 	}
 	skipped := nGuarded == nApp
 	for _, name := range sortedKeys(upd) {
@@ -1561,6 +1600,7 @@ func c01PendingLive(c *Ctx, p *Prog) {
 // ----------------------------------------------------------------- twin --
 
 func c01Twin(c *Ctx, p *Prog) {
+	c01TwinMissing(c, p)
 	pairs := c01FindTwins(p, calcPkg, func(fd *ast.FuncDecl, info *types.Info) bool { return true })
 	for _, pr := range pairs {
 		key := "C01.twin/" + pr.Fn + "/" + pr.Label
@@ -1571,5 +1611,209 @@ func c01Twin(c *Ctx, p *Prog) {
 		c.Check(len(pr.Unsub) == 0, key, site,
 			fmt.Sprintf("IPv4 block at %s and its IPv6 twin at %s differ exactly by the IPv4->IPv6 substitution (%d substituted leaves)", p.Pos(pr.A.Pos()), p.Pos(pr.B.Pos()), pr.NTwin),
 			fmt.Sprintf("%s: the IPv4 block at %s and its IPv6 twin at %s are copies of each other, but the IPv4<->IPv6 substitution is incomplete: %s — one address family's output is computed from (and only re-evaluated on changes of) the other family's input", pr.Fn, p.Pos(pr.A.Pos()), p.Pos(pr.B.Pos()), strings.Join(pr.Unsub, "; ")))
+	}
+}
+
+// c01TwinMissing: a function of felix/calc that treats a struct dual-stack (uses
+// both members of one of its IPv4/IPv6 field pairs) uses both members of every
+// pair of that struct it touches.  The block-level rule above can only compare
+// twins that both exist; a twin that was dropped is reported here instead of
+// silently shrinking the instance count.
+func c01TwinMissing(c *Ctx, p *Prog) {
+	uses, missing := c01FieldTwins(p, calcPkg)
+	bad := map[string]bool{}
+	for _, m := range missing {
+		key := "C01.twin/" + m.Fn + "/" + m.Have.Name() + "/missing-twin"
+		bad[m.Fn+"/"+m.Struct] = true
+		c.Violate(key, p.Pos(m.Pos), "%s handles both address families of %s (it uses %s and %s) and uses %s.%s, but never its twin %s.%s: the %s half of what it computes/compares is missing, so a change that only touches %s is ignored",
+			m.Fn, m.Struct, m.Witness[0].Name(), m.Witness[1].Name(), m.Struct, m.Have.Name(), m.Struct, m.Missing.Name(), m.Missing.Name(), m.Missing.Name())
+	}
+	for _, u := range uses {
+		if bad[u.Fn+"/"+u.Struct] {
+			continue
+		}
+		c.Ok("C01.twin/"+u.Fn+"/"+u.Struct+"/both-families", p.Pos(u.Pos), "%d IPv4/IPv6 field pair(s) of %s used with both members, none one-sidedly", u.Pairs, u.Struct)
+	}
+}
+
+// ------------------------------------------------------------- eqfields --
+
+// c01EqFields: hand-written equality functions of felix/calc.  The calc-graph
+// nodes suppress re-emission / re-calculation when "nothing changed", and decide
+// that with functions of the shape  func(a, b T) bool  over a struct T (two
+// operands of one struct type, receiver included; called from felix/calc).  A
+// field such a function forgets makes an update that changes only that field
+// invisible: the dataplane keeps the old value while a fresh Felix emits the new
+// one.  So each of them reads every field of T from both operands (exported
+// fields only for generated felix/proto messages), or compares the operands
+// whole (==, reflect.DeepEqual, proto.Equal).
+func c01EqFields(c *Ctx, p *Prog) {
+	fs := c01SortedFuncs(p)
+	called := map[*ssa.Function]bool{}
+	for _, f := range fs {
+		if !c03InCalc(f) {
+			continue
+		}
+		for _, b := range f.Blocks {
+			for _, in := range b.Instrs {
+				if ci, ok := in.(ssa.CallInstruction); ok {
+					if g := calleeFn(ci.Common()); g != nil {
+						called[g] = true
+					}
+				}
+			}
+		}
+	}
+	structOf := func(t types.Type) *types.Named {
+		t = types.Unalias(t)
+		if pt, ok := t.(*types.Pointer); ok {
+			t = types.Unalias(pt.Elem())
+		}
+		n, ok := t.(*types.Named)
+		if !ok {
+			return nil
+		}
+		if _, ok := n.Underlying().(*types.Struct); !ok {
+			return nil
+		}
+		return n
+	}
+	n := 0
+	for _, fn := range fs {
+		if !c03InCalc(fn) || fn.Parent() != nil || fn.Blocks == nil || !called[fn] {
+			continue
+		}
+		res := fn.Signature.Results()
+		if res.Len() != 1 {
+			continue
+		}
+		if b, ok := res.At(0).Type().Underlying().(*types.Basic); !ok || b.Kind() != types.Bool {
+			continue
+		}
+		// exactly two operands of one struct type
+		var T *types.Named
+		var ops []int
+		for i, a := range fn.Params {
+			ta := structOf(a.Type())
+			if ta == nil {
+				continue
+			}
+			var same []int
+			for j, b := range fn.Params {
+				if types.Identical(a.Type(), b.Type()) {
+					same = append(same, j)
+				}
+			}
+			if len(same) == 2 && same[0] == i {
+				if T != nil {
+					T = nil // two different pairs: not an equality of two values
+					break
+				}
+				T, ops = ta, same
+			}
+		}
+		if T == nil || len(ops) != 2 {
+			continue
+		}
+		name := fnName(fn)
+		site := p.Pos(fn.Pos())
+		tname := T.Obj().Name()
+		// whole-value comparison?
+		whole := ""
+		sidesOf := func(v ssa.Value) map[int]bool {
+			out := map[int]bool{}
+			for i := range c03ParamRoots(fn, v) {
+				out[i] = true
+			}
+			for _, o := range origins(v, nil) {
+				if par, ok := o.V.(*ssa.Parameter); ok {
+					for i, q := range fn.Params {
+						if q == par {
+							out[i] = true
+						}
+					}
+				}
+			}
+			return out
+		}
+		isOp := func(v ssa.Value, k int) bool {
+			if structOf(v.Type()) != T {
+				return false
+			}
+			if fieldVar(v) != nil {
+				return false
+			}
+			s := sidesOf(v)
+			return s[ops[k]] && !s[ops[1-k]]
+		}
+		allInstrs(fn, false, func(_ *ssa.Function, in ssa.Instruction) {
+			switch x := in.(type) {
+			case *ssa.BinOp:
+				if (x.Op == token.EQL || x.Op == token.NEQ) && structOf(x.X.Type()) == T {
+					if _, isPtr := types.Unalias(x.X.Type()).(*types.Pointer); isPtr {
+						return // pointer identity, not a value comparison
+					}
+					if (isOp(x.X, 0) && isOp(x.Y, 1)) || (isOp(x.X, 1) && isOp(x.Y, 0)) {
+						whole = "compares the two values with " + x.Op.String()
+					}
+				}
+			case ssa.CallInstruction:
+				f := calleeOf(x.Common())
+				if f == nil || f.Pkg() == nil || len(x.Common().Args) != 2 {
+					return
+				}
+				id := f.Pkg().Path() + "." + f.Name()
+				if id != "reflect.DeepEqual" && id != "google.golang.org/protobuf/proto.Equal" {
+					return
+				}
+				a0, a1 := c03StripIface(x.Common().Args[0]), c03StripIface(x.Common().Args[1])
+				if (isOp(a0, 0) && isOp(a1, 1)) || (isOp(a0, 1) && isOp(a1, 0)) {
+					whole = "hands both values to " + id
+				}
+			}
+		})
+		if whole != "" {
+			n++
+			c.Ok("C01.eqfields/"+name+"/"+tname, site, "%s %s", name, whole)
+			continue
+		}
+		exported := T.Obj().Pkg() != nil && strings.HasSuffix(T.Obj().Pkg().Path(), "/felix/proto")
+		cl := p.closure(fn)
+		reads := fieldsRead(cl, T)
+		// only functions that compare at all (read some field of both operands)
+		any := false
+		for _, ins := range reads {
+			for _, in := range ins {
+				if v, ok := in.(ssa.Value); ok && in.Parent() == fn && len(sidesOf(v)) > 0 {
+					any = true
+				}
+			}
+		}
+		if !any {
+			continue
+		}
+		for _, fld := range structFieldNames(T, exported) {
+			n++
+			sides := map[int]bool{}
+			inCallee := false
+			for _, in := range reads[fld] {
+				if in.Parent() != fn {
+					inCallee = true
+					continue
+				}
+				if v, ok := in.(ssa.Value); ok {
+					for i := range sidesOf(v) {
+						sides[i] = true
+					}
+				}
+			}
+			good := (sides[ops[0]] && sides[ops[1]]) || (inCallee && len(sides) == 0)
+			c.Check(good, "C01.eqfields/"+name+"/"+tname+"."+fld, site,
+				fmt.Sprintf("%s reads %s.%s of both operands", name, tname, fld),
+				fmt.Sprintf("%s decides whether two %s values are equal but does not read %s of both of them (first: %v, second: %v): an update that changes only %s is treated as \"no change\" and never propagated, so what has been emitted depends on what was sent before", name, tname, fld, sides[ops[0]], sides[ops[1]], fld))
+		}
+	}
+	if n == 0 {
+		c.Lost("no equality function func(a, b T) bool over a struct type called in felix/calc")
 	}
 }
